@@ -1,0 +1,50 @@
+//go:build verif
+
+// Contracts for the context lifecycle (C09).  See /verif/DESIGN.md.
+
+package stdlib
+
+//@ spec cnt(ctx *context) int = wgcnt[addr(ctx.running)]
+//@ spec closedOnce(ctx *context) bool = oncedone[addr(ctx.closeOnce)]
+
+//@ func (*context).pushBusy(ctx) (err)
+//@   requires cntok: cnt(ctx) >= 0
+//@   modifies wgcnt[addr(ctx.running)]
+//@   ensures adm: err == nil ==> cnt(ctx) == old(cnt(ctx)) + 1 && !ctx.closed
+//@   ensures rej: err != nil ==> cnt(ctx) == old(cnt(ctx)) && ctx.closed
+
+//@ func (*context).popBusy(ctx)
+//@   requires pos: cnt(ctx) > 0
+//@   modifies wgcnt[addr(ctx.running)]
+//@   ensures dec: cnt(ctx) == old(cnt(ctx)) - 1
+
+//@ func (*context).RunCode(ctx, code, globals, locals, closure) (r, err)
+//@   requires cntok: cnt(ctx) >= 0
+//@   protects ctx, wgcnt[addr(ctx.running)]
+//@   modifies *
+//@   ensures bal: cnt(ctx) == old(cnt(ctx))
+//@   ensures rejected: old(ctx.closed) ==> err != nil
+
+//@ func (*context).ModuleInit(ctx, impl) (m, err)
+//@   requires cntok: cnt(ctx) >= 0
+//@   requires nn: impl != nil
+//@   protects ctx, wgcnt[addr(ctx.running)]
+//@   modifies *
+//@   ensures bal: cnt(ctx) == old(cnt(ctx))
+//@   ensures rejected: old(ctx.closed) ==> err != nil
+
+//@ func (*context).ResolveAndCompile(ctx, pathname, opts) (out, err)
+//@   requires cntok: cnt(ctx) >= 0
+//@   protects ctx, wgcnt[addr(ctx.running)]
+//@   modifies *
+//@   ensures bal: cnt(ctx) == old(cnt(ctx))
+//@   ensures rejected: old(ctx.closed) ==> err != nil
+
+//@ func (*context).Close(ctx) (err)
+//@   requires wf: ctx.store != nil && ctx.done != nil
+//@   requires fresh: !closedOnce(ctx) ==> !chclosed[ctx.done] && cbruns[ctx.store] == 0
+//@   modifies *
+//@   ensures ok: err == nil
+//@   ensures fin: closedOnce(ctx)
+//@   ensures first: !old(closedOnce(ctx)) ==> ctx.closed && cnt(ctx) == 0 && cbruns[ctx.store] == 1 && chclosed[ctx.done]
+//@   ensures again: old(closedOnce(ctx)) ==> ctx.closed == old(ctx.closed) && cbruns[ctx.store] == old(cbruns[ctx.store]) && chclosed[ctx.done] == old(chclosed[ctx.done]) && cnt(ctx) == old(cnt(ctx))
